@@ -95,6 +95,9 @@ type interpreter struct {
 	preemptions int
 	lastRun     *goroutine
 	inQuiet     int
+	permuteActive bool
+	permuteAt     int
+	permuteCount  int
 	aborting    bool
 	timers      []*timer
 	now         int64
